@@ -100,7 +100,7 @@ def run(ctx, report: Report) -> None:
                          f'the namespaces/custom maps inside compiled selectors and cache keys alias mutable user state')
 
     # ---- R2 --------------------------------------------------------------------------------------------------
-    r2 = report.rule('C15-R2', 'one field list: slots = constructor keywords = parameter order; pickle via constructor', floor=4)
+    r2 = report.rule('C15-R2', 'one field list: slots = constructor keywords = parameter order; pickle via constructor', floor=7)
     # which classes the module registers for pickling/copying: the module-level statements that mention pickle_register are
     # interpreted with a recording stand-in (a call per class, a loop over a display or over a table of classes, ...)
     from ..interp import Interp, PkgClass, Raised as _Raised
